@@ -62,6 +62,33 @@ def gen_workload(rng, root, tier, opts=None, big=False):
                 lines.append("e2 flush1")
         lines.append(rng.choice(["e2 abort", "e2 abort", "e2 close"]))
         return lines, commits, opts
+    if "mem=" not in opts and rng.random() < 0.3:
+        # structured: several flushed tables, then compactions (inputs replaced by an output: table files are
+        # created, the manifest is switched, the inputs are unlinked) with commits in between
+        for rnd in range(rng.randint(2, 4)):
+            tx += 1
+            lines.append("e2 begin %d rw" % tx)
+            batch = []
+            for _ in range(rng.randint(1, 4)):
+                k = rng.choice(KEYS)
+                if rng.random() < 0.8:
+                    vcount += 1
+                    v = "%04x" % vcount if rng.random() < 0.6 else "rep:%d:%d" % (rng.choice([40, 300]), vcount & 255)
+                    lines.append("e2 set %d %s %s" % (tx, k, v))
+                    batch.append(("set", k, v))
+                else:
+                    lines.append("e2 del %d %s" % (tx, k))
+                    batch.append(("del", k, None))
+            lines.append("e2 %s %d" % ("commitsync" if rng.random() < 0.4 else "commit", tx))
+            commits.append(batch)
+            lines.append("e2 flush")
+            if rnd >= 1 and rng.random() < 0.7:
+                lines.append("e2 compact 0")
+        lines.append("e2 compact 0")
+        if rng.random() < 0.5:
+            lines.append("e2 compact 1")
+        lines.append(rng.choice(["e2 close", "e2 abort", "e2 abort"]))
+        return lines, commits, opts
     n = rng.randint(4, 10) if tier == "quick" else rng.randint(6, 18)
     for _ in range(n):
         r = rng.random()
